@@ -95,7 +95,7 @@ def main():
     for name in sorted(os.listdir(root)):
         sdir = os.path.join(root, name)
         meta = os.path.join(sdir, "meta.json")
-        if not os.path.isfile(meta) or (args.only and args.only not in name):
+        if not os.path.isfile(meta) or (args.only and not any(o in name for o in args.only.split(","))):
             continue
         items.append((sdir, json.load(open(meta))["property"]))
     with ThreadPoolExecutor(max_workers=args.jobs) as ex:
